@@ -259,6 +259,46 @@ def run(chk):
     shutil.rmtree(rdir, ignore_errors=True)
     chk.notes.append('reference loop traces: %s' % sorted(rstats.items()))
     stats.update({'reftrace ' + k: v for k, v in rstats.items()})
+    # --- the recursion over a cluster: a compiled program that hangs K marks under each of L nested parents (attach + put_copy of an
+    #     attached slot: the copy joins the same parent), shaped on a 1 MiB stack.  Slot::finalise / floodShift cut the recursion off
+    #     101 links deep whichever links it follows (C02_finalise_recursion_bounded), so the stack needed does not grow with the text
+    cdir = os.path.join(vlib.BUILD, 'fuzzfonts', 'c02c-%s-%d' % (chk.tier, chk.seed))
+    shutil.rmtree(cdir, ignore_errors=True); os.makedirs(cdir)
+    inv = {g: c for c, g in gcm.items() if 0x21 <= c <= 0x7E and g}
+    ka, kb, kc, kd = sorted(inv)[:4]
+    comb = [dict(maxloop=3, alpha=[ka, kb, kc, kd], rules=[
+        dict(pre=1, pat=[{ka, kd}, {kb}], acts=[[('T', -1)]]),                          # the first mark attaches to the parent
+        dict(pre=1, pat=[{kb}, {kb}], acts=[[('C', -1)]]),                              # every further mark copies the previous one: same parent
+        dict(pre=1, pat=[{kb}, {kc}, {kb}], acts=[[('G', kd), ('T', -1)], []], ret=-1),  # a new level hangs under the last mark
+    ])]
+    cfp = os.path.join(cdir, 'comb.ttf')
+    open(cfp, 'wb').write(K.build_font(gbase, comb, 1))
+    ws = os.path.join(os.path.dirname(w), 'run_shape_smallstack.sh')
+    with open(ws, 'w') as f:
+        f.write('#!/bin/sh\nulimit -s 1024\n' + open(w).read().split('\n', 1)[1])
+    os.chmod(ws, 0o755)
+    ccases = []
+    for kk, ll in ((8, 8), (64, 40), (100, 90)) + (((200, 90), (30, 300)) if thorough else ()):
+        units = [inv[ka]] + ([inv[kb]] * (kk - 1) + [inv[kc]]) * ll + [inv[kb]] * (kk - 1)
+        ccases.append(S.case_line('comb%d.%d' % (kk, ll), cfp, units, 32, ops=('dump',)))
+    _, cil, _ = vlib.run_pair(None, ws, ccases, timeout=2400, shards=1)
+    for c, i in zip(ccases, cil):
+        if i is None:
+            chk.tie_break('harness', 'no result line', c[:300]); continue
+        tk = i.split()
+        if 'ABORT' in tk[1:3]:
+            chk.violation('c02:comb:abort:%s' % c.split()[0], 'shaping a text whose marks form one large cluster (K siblings under each of L nested parents) overran a 1 MiB stack or was flagged by the sanitizers: the recursion over the cluster is not bounded by the depth cut-off: %s' % i[:300],
+                          dict(case=c, got=i[:800], tag='comb', font_hex_gz=c06.blob(cfp)))
+        elif tk[1] not in ('NULLSEG', 'NOFACE'):
+            try:
+                d0 = S.parse_dump(' '.join(i.split(' | ')[0].split()[1:]))
+                natt = sum(1 for sl in d0['slots'] if sl[5] != '-1')
+                classes.add(('comb', c.split()[0], natt > 0))
+                stats['comb attached slots'] = stats.get('comb attached slots', 0) + natt
+            except Exception:
+                chk.tie_break('harness', 'unparsable dump', c[:300])
+    total += len(ccases)
+    shutil.rmtree(cdir, ignore_errors=True)
     # --- mutated fonts that the real loader accepts
     fdir = os.path.join(vlib.BUILD, 'fuzzfonts', 'c02-%s-%d' % (chk.tier, chk.seed))
     shutil.rmtree(fdir, ignore_errors=True)
@@ -327,7 +367,7 @@ def run(chk):
         chk.tie_break('build', 'vmslot harness: %s' % str(e)[:300])
     chk.notes.append('shipped: %s' % sorted(stats.items()))
     chk.notes.append('mutated fonts (%d fonts x 3 texts): %s' % (nf, sorted(mstats.items())))
-    chk.cov.update(evaluations=total + n_vm, distinct_nontrivial=len(classes), disagreements_checked=ndis, distribution=dict(dist, **{k: v for k, v in stats.items() if k.startswith('reftrace')}),
+    chk.cov.update(evaluations=total + n_vm, distinct_nontrivial=len(classes), disagreements_checked=ndis, distribution=dict(dist, **{k: v for k, v in stats.items() if k.startswith('reftrace') or k.startswith('comb')}),
                    rule='(a) shipped fonts x generated texts (3 encodings, dir 0..7, face options, ppm, ill-formed units), long repetitive texts, random feature values; (b) %d byte-mutated fonts '
                         '(Silf-weighted: 1-5 byte edits in Silf/Glat/Gloc/Feat/Sill/cmap/hmtx/maxp/head/name) x 3 texts, of which the real loader accepted those counted under segments/nullseg; '
                         '(b2) compiled GDL-lite programs of 1-4 passes inserting 1-40 slots per matched glyph on texts of 1-40 characters (growth up to the cap and the budget); '
@@ -364,6 +404,12 @@ def replay(chk, obj):
         os.chmod(w, 0o755)
     else:
         w = engine.build(chk)
+        if rp.get('tag') == 'comb':                                # the cluster-recursion family runs on a 1 MiB stack
+            ws = os.path.join(os.path.dirname(w), 'run_shape_smallstack.sh')
+            with open(ws, 'w') as fh:
+                fh.write('#!/bin/sh\nulimit -s 1024\n' + open(w).read().split('\n', 1)[1])
+            os.chmod(ws, 0o755)
+            w = ws
     _, il, err = vlib.run_pair(None, w, [case], shards=1)
     print(case[:300]); print(' impl :', (il[0] or '')[:1500]); print((err or b'')[-1500:] if isinstance(err, bytes) else str(err)[-1500:])
     l = il[0] or ''
